@@ -40,6 +40,9 @@ def getElem (j : Json) : R Elem := do
 def mkH (j : Json) : R Json := do
   return jRes (mkSpectrum (← fList getCh j "chans"))
 
+def gridH (j : Json) : R Json := do
+  return jRes (gridSpectrum (← fInt j "fmin") (← fInt j "fmax") (← fInt j "spacing") (← fInt j "baud"))
+
 def demuxH (j : Json) : R Json := do
   let b ← getBand (← fld j "band")
   return jOpt jRes (demux b (← fList getCh j "sp"))
@@ -67,7 +70,7 @@ def propagateH (j : Json) : R Json := do
     (← fList getCh j "chans"))
 
 def handlers : List (String × Handler) :=
-  [("c07.mk", mkH), ("c07.demux", demuxH), ("c07.mux", muxH), ("c07.inband", inBandH), ("c07.filter", filterH),
+  [("c07.mk", mkH), ("c07.grid", gridH), ("c07.demux", demuxH), ("c07.mux", muxH), ("c07.inband", inBandH), ("c07.filter", filterH),
    ("c07.common", commonH), ("c07.call", callH), ("c07.propagate", propagateH)]
 
 end Gnpy.Drv.C07
